@@ -50,6 +50,39 @@ type Scenario struct {
 	Settle  time.Duration
 	// Instances enumerates the parameter space for a tier ("quick"/"thorough").
 	Instances func(tier string) []Params
+	// Conform lists instances whose default schedule is also run free (real time, real
+	// sockets) and compared observation by observation (environment-model conformance).
+	Conform func() []Params
+	// ConformWait bounds a free run (default 40 s).
+	ConformWait time.Duration
+}
+
+// ObsRec is the outcome of one instance, for conformance comparison.
+type ObsRec struct {
+	Scen   string         `json:"scen"`
+	Params Params         `json:"params"`
+	Obs    []string       `json:"obs"`
+	Viol   []vs.Violation `json:"viol,omitempty"`
+}
+
+// RunFreeOne runs one instance of s outside any bubble.
+func RunFreeOne(s *Scenario, p Params) *ObsRec {
+	w := s.ConformWait
+	if w == 0 {
+		w = 40 * time.Second
+	}
+	x := vs.RunFree(vs.Options{Horizon: s.Horizon, Settle: s.Settle, AtEnd: func(x *vs.Exec) {
+		if s.Check != nil {
+			s.Check(x, p)
+		}
+	}}, func(x *vs.Exec) {
+		if s.Setup != nil {
+			s.Setup(x, p)
+		}
+	}, func(x *vs.Exec) { s.Body(x, p) }, w)
+	obs := x.Observations()
+	sort.Strings(obs)
+	return &ObsRec{Scen: s.Name, Params: p, Obs: obs, Viol: x.Violations()}
 }
 
 var registry = map[string]*Scenario{}
@@ -84,6 +117,8 @@ type Task struct {
 	Trace  bool `json:"trace"`
 	// Batch: run each of these parameter instances once (depth 0) instead of Params
 	Batch []Params `json:"batch,omitempty"`
+	// WantObs: return the sorted observation list of every execution (conformance)
+	WantObs bool `json:"wantobs,omitempty"`
 	// Instances: ask for the parameter instances of a tier instead of running
 	Instances string `json:"instances,omitempty"`
 	// Known: matchers of known findings applicable to this scenario instance;
@@ -146,7 +181,8 @@ type Result struct {
 	Sample      *Found         `json:"sample,omitempty"`
 	Instances   []Params       `json:"instances,omitempty"`
 	MaxDevs     int            `json:"maxdevs"`
-	Contended   int            `json:"contended"`           // executions with >=1 decision point having >=2 runnable goroutines
+	Contended   int            `json:"contended"` // executions with >=1 decision point having >=2 runnable goroutines
+	ObsList     []ObsRec       `json:"obslist,omitempty"`
 	KnownHits   map[int]int    `json:"knownhits,omitempty"` // finding index -> violating executions fully explained by it
 	KnownSample map[int]*Found `json:"knownsample,omitempty"`
 	Recycle     bool           `json:"recycle,omitempty"`
@@ -271,6 +307,11 @@ func (w *worker) node(s *Scenario, prefix []int, hash uint64, depth int, expand 
 		}
 	}
 	r.Outcomes[outcomeKey(x)]++
+	if t.WantObs {
+		obs := x.Observations()
+		sort.Strings(obs)
+		r.ObsList = append(r.ObsList, ObsRec{Scen: t.Scen, Params: t.Params, Obs: obs, Viol: x.Violations()})
+	}
 	mk := func() Found {
 		return Found{Scen: t.Scen, Params: t.Params, Choices: trim(x.Choices()), Viol: x.Violations(),
 			Steps: x.Steps, Obs: x.Observations(), Blocked: x.EndBlocked, Faults: x.Faulted, Devs: x.Devs}
